@@ -302,7 +302,7 @@ def guards_of(fi, target_node, raw=False):
             if ids and all(b not in r for b in ids):
                 out.add((txt, lab))
                 if not raw:
-                    alt[(txt, lab)] = (rnorm(fi, ns[0].ast), lab)
+                    alt[(txt, lab)] = (anorm(fi, ns[0].ast), lab)
     return GuardSet(out, alt)
 
 
@@ -419,6 +419,37 @@ def resolve(fi, expr, depth=3):
     if not defs or expr is None:
         return expr
     return _Subst(defs, depth).visit(copy.deepcopy(expr))
+
+
+def _alias_expr(e):
+    """Name / attribute chain / subscript by a name or constant / id() of those."""
+    if isinstance(e, ast.Name):
+        return True
+    if isinstance(e, ast.Attribute):
+        return _alias_expr(e.value)
+    if isinstance(e, ast.Subscript):
+        s = e.slice
+        ok = isinstance(s, (ast.Name, ast.Constant)) or (isinstance(s, ast.UnaryOp) and isinstance(s.operand, ast.Constant))
+        return ok and _alias_expr(e.value)
+    if isinstance(e, ast.Call):
+        return isinstance(e.func, ast.Name) and e.func.id == "id" and len(e.args) == 1 and not e.keywords \
+            and _alias_expr(e.args[0])
+    return False
+
+
+def aresolve(fi, expr, depth=4):
+    """`expr` with *pure alias* locals (attribute chains, constant subscripts; no calls)
+    replaced by their definitions.  Covers aliases that the canonical form leaves in place
+    because their source is mutated in the function (pred = self.idxstack[-1])."""
+    import copy
+    defs = {k: v for k, v in single_defs(fi).items() if _alias_expr(v)}
+    if not defs or expr is None:
+        return expr
+    return _Subst(defs, depth).visit(copy.deepcopy(expr))
+
+
+def anorm(fi, expr):
+    return norm(aresolve(fi, expr))
 
 
 def rnorm(fi, expr, depth=3):
